@@ -56,7 +56,7 @@ ASSUMPTIONS = [
     "documents used with '&' contain no 0/1/true/false or 1/1.0 look-alikes, so Python equality and JSON equality coincide",
     "no failing reads are injected: the statement gives them no meaning; the only fault kind is abandonment of a lazy result",
 ]
-PROBES = ["compound_x_stream_form", "lazy_alive_across_another_read", "match_on_empty", "query_values_view", "ctx_passed", "error_parity_case"]
+PROBES = ["large_document", "compound_x_stream_form", "lazy_alive_across_another_read", "match_on_empty", "query_values_view", "ctx_passed", "error_parity_case"]
 
 LEVELS = ["module", "env", "compiled"]
 METHODS = ["findall", "finditer", "match", "query"]
@@ -113,7 +113,9 @@ def generate(seed: int, config: str, tier: str) -> Dict[str, Any]:
                 "ctx_kw": rng.random() < 0.5,
             }
         )
-    plan = {"docs": docs, "ctx": ctxdoc, "queries": queries, "calls": calls}
+    # buggify-style size knob: now and then a document is larger than any plausible read chunk
+    pad = [rng.randrange(len(docs)), rng.choice([4095, 4097, 8193, 65537, 131073])] if rng.random() < 0.08 else None
+    plan = {"docs": docs, "ctx": ctxdoc, "queries": queries, "calls": calls, "pad": pad}
     return {"property": PROPERTY, "config": config, "seed": seed, "knobs": {"p_sched": rng.choice([0.15, 0.35, 0.6])}, "plan": plan}
 
 
@@ -170,14 +172,17 @@ class _Lazy:
 class _Ref:
     """Reference outcome of one (query, document): the matches produced, then an optional exception."""
 
-    __slots__ = ("ms", "exc")
+    __slots__ = ("ms", "exc", "all_exc")
 
     def __init__(self, ms: List[Any], exc: Optional[str]) -> None:
         self.ms = ms
-        self.exc = exc
+        self.exc = exc  # what find-iter raises after producing ms, if anything
+        # what find-all raises, if anything: a compound query evaluates its operands in a different
+        # order in find-all and find-iter, so with two lurking errors the classes may differ
+        self.all_exc = exc
 
     def vals(self) -> Any:
-        return ("exc", self.exc) if self.exc else [v for _, v in self.ms]
+        return ("exc", self.all_exc) if self.all_exc else [v for _, v in self.ms]
 
     def show(self) -> Any:
         out: Any = [[p, _untj(v)] for p, v in self.ms]
@@ -200,6 +205,8 @@ def _ref(compiled: Any, doc: Any, fctx: Any, text: str) -> "_Ref":
     except Exception as e:  # noqa: BLE001
         exc = type(e).__name__
     r = _Ref(ms, exc)
+    if exc is not None and isinstance(vals, tuple):
+        r.all_exc = vals[1]
     if r.vals() != vals:
         raise Violation(
             "C11.project",
@@ -238,7 +245,15 @@ def _clause(call: Dict[str, Any], compound: bool) -> str:
 
 def execute(spec: Dict[str, Any], ctx: Ctx) -> None:
     plan = spec["plan"]
-    docs = plan["docs"]
+    docs = copy.deepcopy(plan["docs"])
+    if plan.get("pad"):
+        di, n = plan["pad"]
+        d = docs[di % len(docs)]
+        if isinstance(d, dict):
+            d["zz_pad"] = "p" * n
+        else:
+            d.append("p" * n)
+        ctx.count("probe.large_document")
     fctx = plan["ctx"]
     env = jsonpath.JSONPathEnvironment()
     texts = [qtext(q) for q in plan["queries"]]
@@ -371,7 +386,7 @@ def execute(spec: Dict[str, Any], ctx: Ctx) -> None:
             name = type(e).__name__
             # an eager entry point raises iff the reference raises; a lazy one may raise at call
             # time only if the reference raises before its first match
-            ok = name == want.exc and (call["method"] == "findall" or not want.ms)
+            ok = (name == want.all_exc) if call["method"] == "findall" else (name == want.exc and not want.ms)
             if not ok:
                 fail(clause, desc + f" raised {name}", f"raises {name}", want.show(), f"{clause}:{call['method']}:exc:{name}")
             ctx.log.add("raised", cid, name)
@@ -505,6 +520,10 @@ def shrink_plan(plan: Dict[str, Any]) -> Iterator[Dict[str, Any]]:
     if plan["ctx"] is not None:
         p = dict(plan)
         p["ctx"] = None
+        yield p
+    if plan.get("pad"):
+        p = dict(plan)
+        p["pad"] = None
         yield p
 
 
